@@ -587,9 +587,18 @@ fn parse_kv(s: &str) -> Option<(Vec<(String, String)>, usize)> {
     }
 }
 
+/// TLC integers are 32 bit: a decoded number outside that range is reported as -2
+fn clamp(x: i64) -> i64 {
+    if (0..=i32::MAX as i64).contains(&x) {
+        x
+    } else {
+        -2
+    }
+}
+
 fn split_file_line(fl: &str) -> Option<(String, i64)> {
     let (f, l) = fl.rsplit_once(':')?;
-    Some((f.to_string(), l.parse::<i64>().ok()?))
+    Some((f.to_string(), clamp(l.parse::<i64>().ok()?)))
 }
 
 fn decode_text(fmtname: &str, s: &str, hint_kv: bool, p: &(String, String)) -> Option<Map<String, Value>> {
@@ -623,7 +632,7 @@ fn decode_text(fmtname: &str, s: &str, hint_kv: bool, p: &(String, String)) -> O
             let re = regex::Regex::new(r"^(?s)(.*?):(\d+): ").unwrap();
             let m = re.captures(c.s)?;
             d.insert("file".into(), json!(m.get(1)?.as_str()));
-            d.insert("line".into(), json!(m.get(2)?.as_str().parse::<i64>().ok()?));
+            d.insert("line".into(), json!(clamp(m.get(2)?.as_str().parse::<i64>().ok()?)));
             c.s = &c.s[m.get(0)?.end()..];
         }
         "opt" | "thread" => {
@@ -688,7 +697,7 @@ fn decode_json(body: &[u8]) -> Option<Map<String, Value>> {
     d.insert("hasline".into(), json!(o.contains_key("line")));
     d.insert(
         "line".into(),
-        json!(o.get("line").and_then(|x| x.as_i64()).unwrap_or(0)),
+        json!(clamp(o.get("line").and_then(|x| x.as_i64()).unwrap_or(0))),
     );
     let mut kvs: Vec<Value> = Vec::new();
     if let Some(kv) = o.get("kv").and_then(|x| x.as_object()) {
